@@ -124,7 +124,6 @@ func errClass(err error) string {
 	}
 }
 
-
 func renderMsg(m protocol.Message) (string, string) {
 	n3 := func(name string, a, b, c uint32) string { return fmt.Sprintf("(%s %d %d %d)", name, a, b, c) }
 	switch m := m.(type) {
